@@ -42,6 +42,10 @@ func newRecFs(inner afero.Fs) *recFs {
 func (r *recFs) op(kind, path string) string {
 	r.mu.Lock()
 	defer r.mu.Unlock()
+	switch kind {
+	case "create", "mkdir", "mkdirall", "remove", "removeall", "rename", "chmod", "chown", "chtimes":
+		r.mutating++
+	}
 	idx := r.ops
 	r.ops++
 	if path != "" {
@@ -69,7 +73,6 @@ func (r *recFs) wrap(f afero.File, path string) afero.File {
 
 func (r *recFs) Name() string { return "recFs" }
 func (r *recFs) Create(name string) (afero.File, error) {
-	r.mutating++
 	if r.op("create", name) != "" {
 		return nil, errInjected
 	}
@@ -80,14 +83,12 @@ func (r *recFs) Create(name string) (afero.File, error) {
 	return r.wrap(f, name), nil
 }
 func (r *recFs) Mkdir(name string, perm os.FileMode) error {
-	r.mutating++
 	if r.op("mkdir", name) != "" {
 		return errInjected
 	}
 	return r.inner.Mkdir(name, perm)
 }
 func (r *recFs) MkdirAll(path string, perm os.FileMode) error {
-	r.mutating++
 	if r.op("mkdirall", path) != "" {
 		return errInjected
 	}
@@ -104,9 +105,6 @@ func (r *recFs) Open(name string) (afero.File, error) {
 	return r.wrap(f, name), nil
 }
 func (r *recFs) OpenFile(name string, flag int, perm os.FileMode) (afero.File, error) {
-	if flag&(os.O_WRONLY|os.O_RDWR|os.O_APPEND|os.O_CREATE|os.O_TRUNC) != 0 {
-		r.mutating++
-	}
 	if r.op("openfile", name) != "" {
 		return nil, errInjected
 	}
@@ -117,21 +115,18 @@ func (r *recFs) OpenFile(name string, flag int, perm os.FileMode) (afero.File, e
 	return r.wrap(f, name), nil
 }
 func (r *recFs) Remove(name string) error {
-	r.mutating++
 	if r.op("remove", name) != "" {
 		return errInjected
 	}
 	return r.inner.Remove(name)
 }
 func (r *recFs) RemoveAll(path string) error {
-	r.mutating++
 	if r.op("removeall", path) != "" {
 		return errInjected
 	}
 	return r.inner.RemoveAll(path)
 }
 func (r *recFs) Rename(oldname, newname string) error {
-	r.mutating++
 	r.op("rename", newname)
 	if r.op("rename", oldname) != "" {
 		return errInjected
@@ -155,17 +150,14 @@ func (r *recFs) LstatIfPossible(name string) (os.FileInfo, bool, error) {
 	return fi, false, err
 }
 func (r *recFs) Chmod(name string, mode os.FileMode) error {
-	r.mutating++
 	r.op("chmod", name)
 	return r.inner.Chmod(name, mode)
 }
 func (r *recFs) Chown(name string, uid, gid int) error {
-	r.mutating++
 	r.op("chown", name)
 	return r.inner.Chown(name, uid, gid)
 }
 func (r *recFs) Chtimes(name string, atime, mtime time.Time) error {
-	r.mutating++
 	r.op("chtimes", name)
 	return r.inner.Chtimes(name, atime, mtime)
 }
